@@ -6,7 +6,8 @@ import HsVerif.Props.C03
 with asynchronous verification the same atomic `verifyCert` bodies run under the mutex in an order
 the adversary chooses, which is one of the event orders quantified over here), with
 `fix: the voting machine ignores votes not signed by exactly one replica`.
-The Kauri aggregation tree is not modelled in Lean; it is exercised by the correspondence only. -/
+The Kauri aggregation node and the whole tree are modelled and proved in Props/C09Kauri.lean and
+Props/C09Tree.lean; this file is the all-to-one collector. -/
 open Std.Do
 set_option linter.unusedVariables false
 namespace HsVerif.Props.C09
